@@ -3455,8 +3455,8 @@ orc_neon_rule_splatw3q (OrcCompiler *p, void *user, OrcInstruction *insn)
           tmpreg, p->insn_shift - (p->insn_shift > 0));
   } else {
     orc_arm_add_fixup (p, label, 1);
-    ORC_ASM_CODE(p,"  vldr %s, .L%d+%d\n",
-        orc_neon_reg_name (p->tmpreg), label, offset);
+    ORC_ASM_CODE(p,"  vldr %s, .L%s_%d+%d\n",
+        orc_neon_reg_name (p->tmpreg), p->program->name, label, offset);
     code = 0xed9f0b00;
     code |= (p->tmpreg&0xf) << 12;
     code |= ((p->tmpreg>>4)&0x1) << 22;
